@@ -62,6 +62,37 @@ func c14Live(k *fw.K, p *perso.Perso, pp persoPlan, seed uint64, label string, p
 }
 
 // rebuild a DocumentEx from a blob so that it can be mutated independently
+// c14EvidenceFromLive replaces the evidence of a re-imported copy by deep copies of the values
+// captured live, so that a field mutation always starts from what the session recorded and
+// not from what the importer kept of it (an importer that drops a field would otherwise hide
+// that the field is no longer protected).
+func c14EvidenceFromLive(d, live *document.DocumentEx) {
+	cp := func(b []byte) []byte {
+		if b == nil {
+			return nil
+		}
+		return append([]byte{}, b...)
+	}
+	if l, t := live.Session.ChipAuthResult, d.Session.ChipAuthResult; l != nil && l.Evidence != nil && t != nil {
+		e := *l.Evidence
+		e.TermPri, e.TermPubKey, e.SmRapdu, e.SmSsc = cp(e.TermPri), cp(e.TermPubKey), cp(e.SmRapdu), cp(e.SmSsc)
+		t.Evidence = &e
+	}
+	if l, t := live.Session.PaceCamResult, d.Session.PaceCamResult; l != nil && l.Evidence != nil && t != nil {
+		e := *l.Evidence
+		e.PaceOid = append(e.PaceOid[:0:0], e.PaceOid...)
+		e.Nonce, e.TermMapPri, e.TermMapPub, e.ChipMapPub = cp(e.Nonce), cp(e.TermMapPri), cp(e.TermMapPub), cp(e.ChipMapPub)
+		e.TermKaPri, e.TermKaPub, e.ChipKaPub, e.EcadIC = cp(e.TermKaPri), cp(e.TermKaPub), cp(e.ChipKaPub), cp(e.EcadIC)
+		t.Evidence = &e
+	}
+	if l, t := live.Session.ActiveAuthResult, d.Session.ActiveAuthResult; l != nil && l.Evidence != nil && t != nil {
+		e := *l.Evidence
+		e.Algorithm = append(e.Algorithm[:0:0], e.Algorithm...)
+		e.Nonce, e.Signature = cp(e.Nonce), cp(e.Signature)
+		t.Evidence = &e
+	}
+}
+
 func c14Clone(blob []byte) *document.DocumentEx {
 	doc, b, err := document.UnmarshalVerifiableDoc(blob)
 	if err != nil {
@@ -480,6 +511,7 @@ func c14Judge(c *fw.Ctx, k *fw.K, id string, pp persoPlan, p *perso.Perso, s1, s
 			continue
 		}
 		d := c14Clone(s1.blob)
+		c14EvidenceFromLive(d, live)
 		if !mu.apply(d) {
 			continue
 		}
